@@ -98,12 +98,14 @@ def judge(cx, e, c):
     return bool(good) and len(good) < len(e) + 1
 
 
-def check_allowed(ctx, rn):
+def check_allowed(ctx, rn, r=None, used=False):
+    """is_allowed_child on a fresh Rule object, or (used=True) on the object that has just answered many
+    child_insert_index calls including refused foreign candidates: the answers must not drift"""
     spec, alpha, mixed, dfa = lang.rule_lang(R.rules_dict, rn)
     useful = dfa.useful_letters()
-    r = get_rule(rn)
+    r = r or get_rule(rn)
     for x in alpha + ["zzOther", "", "eml", "dataset", "title"]:
-        case = {"rule": rn, "allowed_child_query": x}
+        case = {"rule": rn, "allowed_child_query": x, "after_refused_candidates": used}
         try:
             got = r.is_allowed_child(x)
         except Exception as ex:  # noqa
@@ -185,6 +187,7 @@ def task(ctx, t):
                     ctx.count("no-or-every-position-valid")
     ctx.bulk(n, nt)
     ctx.engine("exhaustive", pairs=n, exhaustive=True)
+    check_allowed(ctx, rn, cx.rule, used=True)
 
 
 def check_leaf(rn):
@@ -252,7 +255,16 @@ def replay(case):
         x = case["allowed_child_query"]
         useful = lang.rule_lang(R.rules_dict, rn)[3].useful_letters()
         try:
-            got = get_rule(rn).is_allowed_child(x)
+            r = get_rule(rn)
+            if case.get("after_refused_candidates"):
+                cx = Ctxt(rn)
+                r = cx.rule
+                for cand in [lang.FOREIGN, x, "zzOther"]:
+                    try:
+                        cx.index((), cand)
+                    except Exception:  # noqa
+                        pass
+            got = r.is_allowed_child(x)
         except Exception as ex:  # noqa
             return "is_allowed_child raises " + repr(ex)
         if bool(got) != (x in useful):
